@@ -27,6 +27,12 @@ structure Sim where
   rtRace : Bool := false    -- within one quiescence period one goroutine called TryToReplaceLoop while another loop's
                             -- readingMessages flag changed: which of the two came first is the scheduler's choice
 
+/-- ops that are other ops for the model and the history -/
+def normF (f : List String) : List String :=
+  match f with
+  | ["notem", k, _, _] => ["note", k]     -- a notification, whatever its type and message ID
+  | _ => f
+
 def compileProg (udp : Bool) (limit epLimit : Nat) (prog : String) : List Act :=
   (prog.splitOn "+").foldl (fun acc st =>
     if st == "r" || st == "" || st == "a" then acc
@@ -266,7 +272,7 @@ def model (line : String) : String :=
         match st with
         | none => none
         | some (sim, pre) =>
-          let f := sub.splitOn ":"
+          let f := normF (sub.splitOn ":")
           -- the harness lets one millisecond of virtual time pass before every arrival / outside call (first part of a compound op only)
           let sim := if idx == 0 && (["arrive", "arrivem", "mon", "dup", "call", "burst", "watch", "note"].contains (f.headD "") || (udp && f.headD "" == "empty")) then sleepFor sim 1 else sim
           match applyOp udp limit epLimit sim f with
@@ -297,7 +303,7 @@ def classify (line : String) : String :=
     let sim0 : Sim := { s := init (q.toNat?.getD 0) udp [] }
     let sim := ops.foldl (fun (sim : Sim) op =>
       settle (((op.splitOn "&").zipIdx).foldl (fun (sim : Sim) (sub, idx) =>
-        let f := sub.splitOn ":"
+        let f := normF (sub.splitOn ":")
         let sim := if idx == 0 && (["arrive", "arrivem", "mon", "dup", "call", "burst", "watch", "note"].contains (f.headD "") || (udp && f.headD "" == "empty")) then sleepFor sim 1 else sim
         match applyOp udp limit epLimit sim f with
         | some (sim1, _) => (match f with
@@ -321,7 +327,7 @@ def history (udp : Bool) (ops : List String) (segs : List String) : Option (List
   let mut notes : List String := []
   -- exchanges that are one-way confirmable writes (`w<k>`): their answer is the ACK
   let writes : List String := (ops.flatMap (·.splitOn "&")).flatMap fun sub =>
-    match sub.splitOn ":" with
+    match normF (sub.splitOn ":") with
     | "arrive" :: _ :: prog :: _ => (prog.splitOn "+").filterMap (fun st => if st.startsWith "w" then some (st.drop 1).toString else none)
     | "mon" :: _ :: prog :: _ => (prog.splitOn "+").filterMap (fun st => if st.startsWith "w" then some (st.drop 1).toString else none)
     | "arrivem" :: _ :: prog :: _ => (prog.splitOn "+").filterMap (fun st => if st.startsWith "w" then some (st.drop 1).toString else none)
@@ -333,7 +339,7 @@ def history (udp : Bool) (ops : List String) (segs : List String) : Option (List
     let evs := if seg == "-" then [] else seg.splitOn ","
     let early := evs.any (·.startsWith "early")
     for sub in op.splitOn "&" do
-     let f := sub.splitOn ":"
+     let f := normF (sub.splitOn ":")
      match f with
      | ["arrive", m, prog] =>
       let m ← m.toNat?
